@@ -337,3 +337,54 @@ def check_linked(inp, res, err):
 
 RUNTIME["linked"] = {"gen": gen_linked, "call": call_linked, "check": check_linked,
                      "bounds": "3x3 adapter pairs, anchored or not, all four required/optional combinations, reads <= 40 incl. reads ending with the 5' adapter"}
+
+
+# ------------------------------------------------------------------------------ C09 / C03: the rounds of --times
+def gen_rounds(rng):
+    return {"adapters": _gen_adapters(rng), "read": _gen_read(rng) + (rng.choice(ADAPTERS) if rng.random() < 0.4 else ""),
+            "times": rng.choice([1, 2, 2, 3]), "action": rng.choice(["trim", "mask", "lowercase", None, None])}
+
+
+def call_rounds(inp):
+    from dnaio import SequenceRecord
+    from cutadapt.modifiers import AdapterCutter
+    from cutadapt.adapters import MultipleAdapters
+    from cutadapt.info import ModificationInfo
+    s = inp["read"]
+    cutter = AdapterCutter(_mk_adapters(inp["adapters"]), times=inp["times"], action=inp["action"], index=False)
+    rec = SequenceRecord("r", s, "I" * len(s))
+    info = ModificationInfo(rec)
+    out = cutter(rec, info)
+    # the statement, round by round: search what the previous round left, stop when nothing matches or at the limit
+    multi = MultipleAdapters(_mk_adapters(inp["adapters"]))
+    cur, want, lo, hi = s.upper() if inp["action"] == "lowercase" else s, [], 0, len(s)
+    for _ in range(inp["times"]):
+        m = multi.match_to(cur)
+        if m is None:
+            break
+        want.append([m.adapter.name, m.rstart, m.rstop, m.errors])
+        a, b = _interval(m, len(cur))
+        lo, hi = lo + a, lo + b
+        cur = cur[a:b]
+    return {"recorded": [[m.adapter.name, m.rstart, m.rstop, m.errors] for m in info.matches], "want": want,
+            "out": [out.sequence, out.qualities], "kept": [lo, hi]}
+
+
+def check_rounds(inp, res, err):
+    if err:
+        return ["no_raise:" + err]
+    bad = []
+    if res["recorded"] != res["want"]:
+        bad.append(f"C09:matches recorded {res['recorded']}, the rounds of the statement give {res['want']}")
+    s = inp["read"]
+    if res["want"]:
+        w = _apply(inp["action"], s, "I" * len(s), res["kept"], None)
+    else:
+        w = [s.upper() if inp["action"] == "lowercase" else s, "I" * len(s)]
+    if w is not None and res["out"] != w:
+        bad.append(f"C03:action {inp['action']} after {len(res['want'])} round(s) gives {res['out']}, expected {w}")
+    return bad
+
+
+RUNTIME["rounds"] = {"gen": gen_rounds, "call": call_rounds, "check": check_rounds,
+                     "bounds": "1-3 adapters, --times 1-3, actions trim/mask/lowercase/none, reads <= 50 with several planted adapter pieces"}
